@@ -62,7 +62,7 @@ theorem dispatch_shape_aux {e : Editor D L} {ev : KeyEvent} {sh : Shared D L} {s
     (h : dispatch env e ev = .ok (sh, st)) :
     (sh.last ≠ .commit ∧ sh.commitBuf = []) ∨
     (sh.last = .commit ∧ e.state = .entering ∧ st = .entering ∧
-      ((e.shared.com.isEmpty = true ∧ sh.com = e.shared.com ∧ ∃ ch, sh.commitBuf = [ch]) ∨
+      ((e.shared.com.isEmpty = true ∧ sh.com = e.shared.com ∧ ∃ ch, DirectChar ev ch ∧ sh.commitBuf = [ch]) ∨
        (ev.code = KC.enter ∧ e.shared.com.isEmpty = false ∧ Shared.commit env (preamble e.shared) = .ok sh))) := by
   have hpb : (preamble e.shared).commitBuf = [] := rfl
   unfold dispatch at h
@@ -84,9 +84,9 @@ theorem dispatch_shape_aux {e : Editor D L} {ev : KeyEvent} {sh : Shared D L} {s
         subst ht
         simp only [applyTrans] at h; cases h
         refine ⟨rfl, hs, rfl, ?_⟩
-        rcases hcase with ⟨he, hcom, ch, hch⟩ | ⟨hk, hcm⟩
+        rcases hcase with ⟨he, hcom, ch, hq, hch⟩ | ⟨hk, hcm⟩
         · left
-          refine ⟨he, hcom, ch, ?_⟩
+          refine ⟨he, hcom, ch, hq, ?_⟩
           rcases hch with hch | hch
           · exact hch
           · rw [hch, hpb]; rfl
@@ -201,14 +201,16 @@ def accepted (e : Editor D L) (op : Op L) (m : Shared D L) : Int :=
 
 /-- **how one operation relates what it emits to what it edited** (`m` = state after the editing part):
     (K) nothing emitted, the pre-edit is what the editing part left;
-    (S) one character passed straight through, the (empty) pre-edit untouched;
+    (S) one character passed straight through, the (empty) pre-edit untouched — the key's own
+        character, its full-width form, or a half- or full-width space for Space as selection key;
     (C) a commit path ran: the emitted text is the text of the first `k` intervals of the conversion of
         the edited buffer (`k ≥ 1`) — all of them and the pre-edit is now empty (Enter, `commit()`), or
         the buffer exceeded the threshold and exactly the symbols under those intervals were removed
         from the front (overflow after a key or after `select(n)`), `k` least such that the rest fits. -/
 def StepShape (e : Editor D L) (op : Op L) (m : Shared D L) (e' : Editor D L) : Prop :=
   (direct e op m = false ∧ emitted e op e' = [] ∧ e'.shared.com = m.com) ∨
-  (direct e op m = true ∧ e'.shared.com = e.shared.com ∧ ∃ ch, emitted e op e' = [ch]) ∨
+  (direct e op m = true ∧ e'.shared.com = e.shared.com ∧
+    ∃ ch, emitted e op e' = [ch] ∧ ∀ ev, op = .key ev → DirectChar ev ch) ∨
   (direct e op m = false ∧ ∃ ivs k, Shared.conversion env m = .ok ivs ∧ k ≤ ivs.length ∧ (ivs = [] ∨ 0 < k) ∧
     emitted e op e' = textOf (ivs.take k) ∧
     ((k = ivs.length ∧ e'.shared.com.symbols = [] ∧ e'.shared.com.cursor = 0) ∨
@@ -278,15 +280,16 @@ theorem key_shape {e e' : Editor D L} {ev : KeyEvent} {m : Shared D L}
       · rw [hsh, f2]; exact h6
   · rcases hcase with ⟨hsh, _, _⟩ | ⟨_, habs, _⟩
     · obtain ⟨f1, f2, _⟩ := flush_fields env sh
-      rcases hcase2 with ⟨he, hcom, ch, hch⟩ | ⟨_, hne, hcm⟩
+      rcases hcase2 with ⟨he, hcom, ch, hq, hch⟩ | ⟨_, hne, hcm⟩
       · -- one character, straight through
         have hm' : m = sh := by
           rw [← hmm, if_neg (fun c => by rw [he] at c; exact absurd c.2 (by decide))]
         subst hm'
-        refine Or.inr (Or.inl ⟨?_, by rw [hsh, f2]; exact hcom, ch, ?_⟩)
+        refine Or.inr (Or.inl ⟨?_, by rw [hsh, f2]; exact hcom, ch, ?_, ?_⟩)
         · simp only [direct, hc, he, beq_self_eq_true, Bool.and_self]
         · show e1.shared.commitBuf = [ch]
           rw [hsh, f1]; exact hch
+        · intro ev' hev; cases hev; exact hq
       · -- Enter: the whole pre-edit
         have hm' : m = preamble e.shared := by rw [← hmm, if_pos ⟨hc, hne⟩]
         subst hm'
@@ -490,7 +493,7 @@ theorem shape_ledger {e e' : Editor D L} {op : Op L} {m : Shared D L} (hT : Tile
   rcases h with ⟨hd, hem, hcom⟩ | ⟨hd, hcom, ch, hem⟩ | ⟨hd, ivs, k, hc, hk, _, hem, hcase⟩
   · simp only [accepted, hd, hem, hcom, List.length_nil, Bool.false_eq_true, if_false]
     omega
-  · simp only [accepted, hd, hem, hcom, List.length_cons, List.length_nil, if_true]
+  · simp only [accepted, hd, hem.1, hcom, List.length_cons, List.length_nil, if_true]
     omega
   · have ht := hT.conversion env hc
     simp only [accepted, hd, hem, Bool.false_eq_true, if_false]
